@@ -36,6 +36,7 @@ var propConfigs = map[string]propConfig{
 	"C12": {Gen: true},
 	"C08": {Gen: true},
 	"C11": {Gen: true},
+	"C18": {Gen: true},
 }
 
 var pathSuffix = regexp.MustCompile(`@path\d+$`)
